@@ -8,7 +8,7 @@ PROP = dict(
                        "closed reactor accepts nothing",
                        "delivery in send order",
                        "feedback never blocks (well-formed client)"]),
-        dict(driver="reactorc", binary="zreactor", quick=3000, thorough=24000, shard=100,
+        dict(driver="reactorc", binary="zreactor", quick=2000, thorough=24000, shard=100,
              monitors=["no deadlock (run became quiescent)",
                        "bounded in-flight seeds at every moment of the history",
                        "quiescent accounting (tokens = tracked = accepted - finished)",
